@@ -19,7 +19,12 @@ func c10Table() (*memsym.Table, []*memsym.Row) {
 	linked := memsym.NewTable()
 	linked.Types["name"] = ast.NodeTypeString
 	linked.Types["rank"] = ast.NodeTypeInt64
+	linked.Types["lt"] = ast.NodeTypeString
+	linked.Sets["lt"] = true
+	linked.Types["back"] = ast.NodeTypeString
+	linked.Sets["back"] = true
 	t := memsym.NewTable()
+	linked.Linked["back"] = t
 	t.Types["sa"] = ast.NodeTypeString
 	t.Types["na"] = ast.NodeTypeInt64
 	t.Types["fa"] = ast.NodeTypeFloat64
@@ -46,6 +51,9 @@ func c10Table() (*memsym.Table, []*memsym.Row) {
 	l1, l2 := memsym.NewRow(linked), memsym.NewRow(linked)
 	l1.Vals["name"], l1.Vals["rank"] = "n1", int64(1)
 	l2.Vals["rank"] = int64(5)
+	l1.SetVals["lt"] = []any{"a", ""}
+	l1.SetVals["back"] = []any{"r1"}
+	l1.LinkedRows["back"] = []*memsym.Row{mk()}
 	full.LinkedRows["ls"] = []*memsym.Row{l1, l2}
 	full.SetVals["ls"] = []any{"l1", "l2"}
 	rows = append(rows, full)
@@ -65,13 +73,52 @@ var c10Arrays = []string{`["a", "b"]`, `[1, 2]`, `[1.5, 2]`, `[1, 2.5, 3]`, `[da
 var c10Betweens = []string{"1 and 5", "1.5 and 5", "1 and 5.5", "datetime(2020-01-01T00:00:00Z) and datetime(2021-01-01T00:00:00Z)", "5 and 1", "-1 and -1"}
 var c10Suffix = []string{"", " sort by sa", " sort by na desc, sa asc", " sort by ta", " sort by zz", " sort by m.k", " skip 1", " skip -1", " limit 1", " limit none", " limit -3", " skip 2 limit 2", " sort by da skip 0 limit 0", " skip 1.5", " limit 2.5", " skip 9223372036854775807 limit 9223372036854775807"}
 
-// c10Sentences enumerates grammar-derived sentences with arbitrary operand type mixes.
-func c10Sentences() []string { return c10SentencesFor(c10Lhs) }
+// c10Sentences enumerates grammar-derived sentences with arbitrary operand type mixes, at the top level and as the
+// predicate of a sub-query (one and two levels deep).
+func c10Sentences() []string {
+	out := c10SentencesFor(c10Lhs)
+	out = append(out, c10Nested("ls", c10SentencesFor(c10LinkedLhs), 1)...)
+	out = append(out, c10Nested2("ls", "back", c10SentencesFor(c10Lhs[:12]), 7)...)
+	return out
+}
+
+// left-hand sides inside `from ls where ...` (the linked table): scalars, a set and a linked set used as scalars
+// and inside set functions, unknown symbols, a sub-query back to the outer table
+var c10LinkedLhs = []string{"name", "rank", "lt", "back", "zz", "anyOf(lt)", "allOf(lt)", "count(lt)", "count(back)", "anyOf(name)", "count(from back where true)", "count(from back where ta = \"a\")", "anyOf(back)"}
+
+// c10Nested wraps every step-th sentence as the predicate of a sub-query over set.
+func c10Nested(set string, inner []string, step int) []string {
+	var out []string
+	for i := 0; i < len(inner); i += step {
+		switch i % 3 {
+		case 0:
+			out = append(out, "count(from "+set+" where "+inner[i]+") > 0")
+		case 1:
+			out = append(out, "isEmpty(from "+set+" where "+inner[i]+")")
+		default:
+			out = append(out, "not isEmpty(from "+set+" where "+inner[i]+") or count(from "+set+" where "+inner[i]+" limit 1) = 1")
+		}
+	}
+	return out
+}
+
+func c10Nested2(set, innerSet string, inner []string, step int) []string {
+	var out []string
+	for i := 0; i < len(inner); i += step {
+		out = append(out, "count(from "+set+" where count(from "+innerSet+" where "+inner[i]+") > 0) > 0")
+	}
+	return out
+}
 
 // left-hand sides over schema Q (bolt path)
 var c10BoltLhs = []string{"s", "ism", "ibig", "flt", "b", "t", "grp", "tags", "nums", "friends", "owner", "id", "meta.k", "meta.a.b", "meta", "owner.name", "owner.tags", "friends.name", "friends.tags", "friends.rank", "zz", "owner.zz",
 	"anyOf(tags)", "allOf(tags)", "anyOf(friends.name)", "allOf(friends.rank)", "anyOf(owner.tags)", "count(tags)", "count(friends)", "anyOf(s)", "count(ism)", "anyOf(meta.k)", "anyOf(zz)",
 	"count(from friends where rank > 1)", "count(from friends where name = \"a\" skip 1 limit 1)", "count(from tags where true)", "count(from owner where true)", "count(from friends where zz = 1)"}
+
+// left-hand sides inside `from friends where ...` (store others): scalars, sets, link sets and dotted (composite) set
+// symbols used as scalars and inside set functions
+var c10BoltOthersLhs = []string{"name", "rank", "tags", "things", "id", "things.flt", "things.s", "things.nums", "things.owner.name", "things.friends.rank", "zz", "things.zz",
+	"anyOf(tags)", "anyOf(things.flt)", "allOf(things.owner.name)", "count(things)", "anyOf(name)", "count(from things where true)", "count(from things where tags = \"a\")", "count(from things where anyOf(tags) = \"a\")"}
 
 func c10SentencesFor(lhs []string) []string {
 	var out []string
@@ -439,6 +486,8 @@ func c10Bolt(c *core.Ctx, part int) {
 	}
 	defer emptyEnv.close()
 	sentences := c10SentencesFor(c10BoltLhs)
+	sentences = append(sentences, c10Nested("friends", c10SentencesFor(c10BoltOthersLhs), 1)...)
+	sentences = append(sentences, c10Nested2("friends", "things", c10SentencesFor(c10BoltLhs[:22]), 5)...)
 	try := func(e *qEnv, q string, counter string) {
 		defer func() {
 			if rec := recover(); rec != nil {
